@@ -106,6 +106,8 @@ func main() {
 			return clause{coq, "LIMIT @o, @c"}, map[string]interface{}{"o": o, "c": c}
 		case 2:
 			return clause{coq, "LIMIT @o, @c"}, map[string]interface{}{"o": float64(o), "c": float64(c)}
+		case 3: // fractional floats are truncated, not rounded
+			return clause{coq, "LIMIT @o, @c"}, map[string]interface{}{"o": float64(o) + 0.5, "c": float64(c) + 0.75}
 		}
 		if o == 0 && rng.Intn(2) == 0 {
 			return clause{coq, fmt.Sprintf("LIMIT %d", c)}, nil
@@ -189,7 +191,7 @@ func main() {
 		}
 		for o := 0; o <= n+2; o++ {
 			for cnt := 0; cnt <= n+2; cnt++ {
-				l, p := lim(o, cnt, (o+cnt+si)%3)
+				l, p := lim(o, cnt, (o+cnt+si)%4)
 				cases = append(cases, cs{src: s, chain: []clause{l}, tail: plainRet, after: "None", params: p})
 				m.Count("limit-exhaustive")
 			}
@@ -273,7 +275,15 @@ func main() {
 		for k, v := range cse.params {
 			params[k] = v
 		}
-		o := fqlrun.Run(c, q, params, -1, false)
+		// every third case: the compiled program is run twice and the second result is the one compared
+		// (a clause that keeps state between executions of the same program shows up there)
+		var o fqlrun.Outcome
+		if prog, cerr := c.Compile(q); cerr == nil && prog != nil && i%3 == 0 {
+			fqlrun.RunProgram(prog, params, -1, false)
+			o = fqlrun.RunProgram(prog, params, -1, false)
+		} else {
+			o = fqlrun.Run(c, q, params, -1, false)
+		}
 		impl := "None"
 		if o.Class == "ok" {
 			if v, err := fqlrun.JSONToCoq(o.JSON); err == nil {
